@@ -1099,9 +1099,14 @@ private:
   template <typename TABLE_MODE>
   TwoBuckets snapshot_and_lock_two(const hash_value &hv) const {
     while (true) {
-      // Keep the current hashpower and locks we're using to compute the buckets
-      const size_type hp = hashpower();
+      // Keep the current hashpower and locks we're using to compute the buckets.
+      // The resize counter must be read BEFORE the hashpower: a resize that
+      // completes between the two loads then leaves us with an old counter
+      // (so the check after taking the lock fails and we retry). In the other
+      // order we could pair an old hashpower with the new counter and pass
+      // the check with stale bucket indices.
       const ResizeCounter resize_counter = load_resize_counter();
+      const size_type hp = hashpower();
       const size_type i1 = index_hash(hp, hv.hash);
       const size_type i2 = alt_index(hp, hv.partial, i1);
       try {
